@@ -21,7 +21,7 @@ mod sval;
 mod threadsim;
 mod writer;
 
-use common::{Outcome, ReplayFile, Stats, Violation};
+use common::{Outcome, ReplayFile, Stats, Violation, WorkerSeg};
 use serde::{Deserialize, Serialize};
 use std::collections::BTreeMap;
 use std::io::Write;
@@ -124,7 +124,22 @@ fn replay_file(engine: &str, prop: &str, tier: &str, master: u64, index: u64, se
         expect,
         minimised: false,
         note: String::new(),
+        worker: None,
+        prelude: false,
     }
+}
+
+/// One run = one fresh 2 MiB thread: thread-local state of the code under test cannot leak from
+/// one run into the next, so a scenario is self-contained (process-global state still can leak;
+/// see `ReplayFile::prelude`).
+fn run_isolated(scn: Scn, mut stats: Stats) -> (Scn, Outcome, Stats, (u64, u64, u64)) {
+    on_big_stack(move || {
+        common::install_panic_hook();
+        engine::install_hooks();
+        let o = execute(&scn, &mut stats);
+        let hooks = (engine::stack_max() as u64, engine::end_renders(), engine::steps_total());
+        (scn, o, stats, hooks)
+    })
 }
 
 #[derive(Serialize)]
@@ -153,15 +168,16 @@ fn cmd_run(m: BTreeMap<String, String>) -> i32 {
     let want_fp = m.contains_key("fingerprints");
     let max_violations: usize = m.get("max-violations").map(|s| s.parse().unwrap()).unwrap_or(5);
 
-    let report = on_big_stack(move || {
+    let report = {
         common::install_panic_hook();
-        engine::install_hooks();
         let mut stats = Stats::default();
         let mut violations: Vec<ReplayFile> = Vec::new();
         let mut deferred: Vec<ReplayFile> = Vec::new();
         let mut fps = Vec::new();
         let hb_path = format!("{}/worker-{}.hb", out, offset);
         let mut runs = 0u64;
+        let (mut stack_max, mut end_calls, mut steps_total) = (0u64, 0u64, 0u64);
+        let seg = WorkerSeg { check: check.clone(), family: family.clone(), from, stride, offset };
         let mut i = from + offset;
         while i < to {
             let seed = rng::run_seed(master, &format!("{}/{}/{}", check, engine, family), i);
@@ -170,7 +186,15 @@ fn cmd_run(m: BTreeMap<String, String>) -> i32 {
                 let _ = writeln!(f, "{} {}", i, seed);
             }
             let scn = generate(&engine, &family, &prop, &tier, seed);
-            let mut outcome = execute(&scn, &mut stats);
+            // wall time is measured for the evidence only (margin to the hang detector); it never
+            // decides anything
+            let t_run = std::time::Instant::now();
+            let (scn, mut outcome, st, hooks) = run_isolated(scn, std::mem::take(&mut stats));
+            stats = st;
+            stats.maxi("slowest_run_ms", t_run.elapsed().as_millis() as u64);
+            stack_max = stack_max.max(hooks.0);
+            end_calls += hooks.1;
+            steps_total += hooks.2;
             runs += 1;
             // threadsim: the replay scenario pins the recorded task sequence of the failing iteration
             let mut scn = scn;
@@ -198,18 +222,21 @@ fn cmd_run(m: BTreeMap<String, String>) -> i32 {
                 stats.inc("violations_seen");
                 // keep one replay file per (property, invariant, signature) class per worker
                 if violations.len() < max_violations && !violations.iter().any(|r| r.expect.as_ref().map(|e| (&e.property, &e.invariant, &e.signature)) == Some((&v.property, &v.invariant, &v.signature))) {
-                    violations.push(replay_file(&engine, &prop, &tier, master, i, seed, &scn, Some(v)));
+                    let mut rf = replay_file(&engine, &prop, &tier, master, i, seed, &scn, Some(v));
+                    rf.worker = Some(seg.clone());
+                    violations.push(rf);
                 }
             }
             i += stride;
         }
         let _ = std::fs::remove_file(&hb_path);
-        stats.maxi("stack_bytes", engine::stack_max() as u64);
-        stats.add("end_of_render_hook_calls", engine::end_renders());
+        stats.maxi("stack_bytes", stack_max);
+        stats.add("end_of_render_hook_calls", end_calls);
+        stats.add("vm_steps_total", steps_total);
         let distinct: Vec<u64> = stats.distinct.iter().cloned().collect();
         let distinct_named = stats.distinct_named.iter().map(|(k, v)| (k.clone(), v.iter().cloned().collect())).collect();
         (WorkerReport { stats, distinct, distinct_named, violations, deferred, fingerprints: fps, runs }, out, offset)
-    });
+    };
     let (report, out, offset) = report;
     // the main distinct set can be millions of fingerprints: raw little-endian u64s, not JSON
     let mut raw = Vec::with_capacity(report.distinct.len() * 8);
@@ -219,6 +246,14 @@ fn cmd_run(m: BTreeMap<String, String>) -> i32 {
     std::fs::write(format!("{}/worker-{}.distinct.bin", out, offset), raw).expect("write distinct set");
     let mut report = report;
     report.distinct.clear();
+    for (name, set) in report.distinct_named.iter_mut() {
+        let mut raw = Vec::with_capacity(set.len() * 8);
+        for h in set.iter() {
+            raw.extend_from_slice(&h.to_le_bytes());
+        }
+        std::fs::write(format!("{}/worker-{}.named-{}.bin", out, offset, name), raw).expect("write named distinct set");
+        set.clear();
+    }
     let path = format!("{}/worker-{}.json", out, offset);
     std::fs::write(&path, serde_json::to_vec(&report).unwrap()).expect("write worker report");
     0
@@ -270,12 +305,20 @@ fn same_class(v: &Violation, e: &Violation) -> bool {
 
 fn cmd_replay(path: &str) -> i32 {
     let (rf, scn) = load_replay(path);
-    let (outcome, rf) = on_big_stack(move || {
-        common::install_panic_hook();
-        engine::install_hooks();
-        let mut stats = Stats::default();
-        (execute(&scn, &mut stats), rf)
-    });
+    common::install_panic_hook();
+    if rf.prelude {
+        // re-create the process state the finding worker was in: its earlier runs, in order
+        if let Some(w) = &rf.worker {
+            let mut i = w.from + w.offset;
+            while i < rf.run_index {
+                let seed = rng::run_seed(rf.master_seed, &format!("{}/{}/{}", w.check, rf.engine, w.family), i);
+                let s = generate(&rf.engine, &w.family, &rf.property, &rf.tier, seed);
+                let _ = run_isolated(s, Stats::default());
+                i += w.stride;
+            }
+        }
+    }
+    let (_, outcome, _, _) = run_isolated(scn, Stats::default());
     let mut hit = false;
     for v in &outcome.violations {
         let matches = rf.expect.as_ref().map(|e| same_class(v, e)).unwrap_or(true);
@@ -351,6 +394,35 @@ fn main() {
             let budget = args.get(4).and_then(|s| s.parse().ok()).unwrap_or(30);
             cmd_minimize(&args[2], &args[3], budget)
         }
+        "dbg-cost" => {
+            let (_rf, scn) = load_replay(&args[2]);
+            if let Scn::Reg(sc) = scn {
+                on_big_stack(move || {
+                    engine::install_hooks();
+                    let mut t = engine::new_tera(&sc.config);
+                    for op in &sc.ops {
+                        let items: Vec<(String, String)> = match op {
+                            regsim::Op::AddRaw { name, source } => vec![(name.clone(), source.clone())],
+                            regsim::Op::AddBatch { items } => items.clone(),
+                            _ => vec![],
+                        };
+                        let _ = t.add_raw_templates(items.iter().map(|(a, b)| (a.as_str(), b.as_str())));
+                    }
+                    let ctxs: Vec<tera::Context> = sc.contexts.iter().map(|c| c.to_context()).collect();
+                    let mut names: Vec<String> = t.get_template_names().map(|s| s.to_string()).collect();
+                    names.sort();
+                    for n in names {
+                        for (ci, c) in ctxs.iter().enumerate() {
+                            let s0 = engine::steps_total();
+                            let t0 = std::time::Instant::now();
+                            let r = t.render(&n, c);
+                            println!("{} ctx{} steps={} ms={} out={}", n, ci, engine::steps_total() - s0, t0.elapsed().as_millis(), r.map(|s| s.len() as i64).unwrap_or(-1));
+                        }
+                    }
+                });
+            }
+            0
+        }
         "dbg-graph" => {
             let (_rf, scn) = load_replay(&args[2]);
             if let Scn::Reg(sc) = scn {
@@ -381,6 +453,19 @@ fn main() {
                     println!("edges(no comps) {:?}", gm.effective_edges(false));
                 });
             }
+            0
+        }
+        "count-distinct" => {
+            // union size of the workers' fingerprint files (raw little-endian u64s)
+            let mut all: Vec<u64> = Vec::new();
+            for f in &args[2..] {
+                if let Ok(b) = std::fs::read(f) {
+                    all.extend(b.chunks_exact(8).map(|c| u64::from_le_bytes(c.try_into().unwrap())));
+                }
+            }
+            all.sort_unstable();
+            all.dedup();
+            println!("{}", all.len());
             0
         }
         "engines" => {
